@@ -241,12 +241,12 @@ def run(ctx):
             ctx.notes.append('known finding not re-run, dumper failed closed: %s' % e)
     for i, p in enumerate(fd.HAND_PROGRAMS):
         programs.append(('hand%d.py' % i, p))
-    for i in range(ctx.pick(70, 1000)):
+    for i in range(ctx.pick(70, 600)):
         p, kinds = fd.gen_program(ctx.rng)
         for k, v in kinds.items():
             ctx.histogram('constructs', k, v)
         programs.append(('gen%d.py' % i, p))
-    for fn in stdlib_files(limit=ctx.pick(12, 200), rng=ctx.rng):
+    for fn in stdlib_files(limit=ctx.pick(12, 120), rng=ctx.rng):
         try:
             text = open(fn, encoding='utf8').read()
         except (UnicodeDecodeError, OSError):
@@ -255,7 +255,7 @@ def run(ctx):
             continue
         programs.append((fn, text))
 
-    nlay = ctx.pick(2, 4)
+    nlay = ctx.pick(2, 3)
     terms, tmeta = [], []
     npairs = ndirect = nprinter_fail = ndump_fail = 0
     for fn, text in programs:
